@@ -458,6 +458,11 @@ func ParseTupleAndKeywords(args Tuple, kwargs StringDict, format string, kwlist 
 
 		// Unspecified args retain their default value
 		if arg == nil {
+			// ...unless they are required: enough arguments in
+			// total doesn't mean this one was supplied
+			if i < min {
+				return ExceptionNewf(TypeError, "%s() missing required argument '%s' (pos %d)", name, kw, i+1)
+			}
 			continue
 		}
 
